@@ -412,11 +412,18 @@ def designed_docs():
         ("/b", [op("post", opid="postB", body=True, links=[("201", "M", ("id", "getA")), ("201", "N", ("id", "delA"))]),
                 op("get", tags=["x", "y"], param="ref", internal=True, links=[("200", "O", ("ref", "get", "/a/{id}"))])], {}),
     ])
-    return {"A": A, "B": B, "C": C, "D": D}
+    # a link target whose path needs both JSON-pointer escapes in `operationRef` (`#/paths/~0c~1{id}/get`)
+    E = build_doc([
+        ("/~c/{id}", [op("get", opid="getC", tags=["x"]), op("delete", tags=["y"])], {}),
+        ("/b", [op("post", opid="postB", body=True, links=[("201", "M", ("ref", "get", "/~c/{id}")), ("201", "N", ("ref", "delete", "/~c/{id}"))]),
+                op("get", tags=["x"], links=[("200", "O", ("id", "getC"))])], {}),
+    ])
+    return {"A": A, "B": B, "C": C, "D": D, "E": E}
 
 
 def random_doc(rng, preds):
-    paths = ["/a", "/b", "/c", "/a/{id}"]
+    # a path whose JSON-pointer spelling needs both escapes (`~` -> `~0`, `/` -> `~1`): links by operationRef name it so
+    paths = ["/a", "/b", "/c" if rng.random() < 0.6 else "/~c", "/a/{id}"]
     rng.shuffle(paths)
     chosen_paths = paths[: rng.choice([1, 2, 2, 3])]
     opids = ["getA", "delA", "postB", "getB", "patchC", "putC"]
